@@ -104,6 +104,10 @@ def chunkings_for(shape, tier, rng=None, limit=None):
     return allc
 
 
+def _plain_getitem(a, index):
+    return a[index]
+
+
 def base_arrays(tier, rng, per_source=6):
     """(name, dask array, numpy, info) over NumPy and recording sources with enumerated chunkings."""
     import dask_array as da
@@ -121,6 +125,12 @@ def base_arrays(tier, rng, per_source=6):
                 src = RecordingSource(d, chunks=tuple(max(1, n // 2) for n in d.shape))
                 return da.from_array(src, chunks=c), src
             out.append((f"{sname}/recgrid/{c}", mk2, data, {"kind": "recording-grid"}))
+        # a user-supplied two-argument getitem(a, index), as documented for from_array
+        for c in ch[:1]:
+            def mk3(d=data, c=c):
+                src = RecordingSource(d)
+                return da.from_array(src, chunks=c, getitem=_plain_getitem), src
+            out.append((f"{sname}/rec-getitem/{c}", mk3, data, {"kind": "recording"}))
     return out
 
 
